@@ -28,6 +28,9 @@ pub enum KeyState {
     ParamByte(u8, u8),
     /// blob of the length another hash variant uses
     OtherHashLength(u8),
+    /// well-formed parameters but a counter at or beyond the number of leaves (corrupted storage):
+    /// whether this is refused or not is not C04's business, the ledger is
+    Beyond(u64),
 }
 
 #[derive(Clone, Copy, Debug, PartialEq, Eq, Serialize, Deserialize)]
@@ -87,6 +90,22 @@ pub fn check_ledger(c: &LedgerCase) -> Verdict {
             b[8 + (*pos as usize % 8)] = *value;
             let ok = hss::decode_blob(&m, &b).is_some();
             (b, !ok)
+        }
+        KeyState::Beyond(extra) => {
+            let ctr = if *extra == u64::MAX { u64::MAX } else { total.saturating_add(*extra) };
+            let b = with_counter(&good, ctr);
+            // relaxed ledger for this state
+            let (o, calls) = libapi::sign(c.hash, &gen::expand(0x44, 21), &b, if c.accept { Cb::Accept } else { Cb::Reject }, None);
+            if calls.len() > 1 {
+                return fail("callback-twice", format!("callback invoked {} times", calls.len()));
+            }
+            return match o {
+                Out::Ok(_) if calls.len() != 1 => fail("released-without-callback", "a signature was returned but the callback was never invoked"),
+                Out::Ok(_) if !c.accept => fail("released-despite-reject", "a signature was returned although the callback reported failure"),
+                Out::Err if !calls.is_empty() && c.accept => fail("callback-on-error-path", format!("callback invoked (and accepted) although no signature was produced for a counter beyond the end of life ({})", ctr)),
+                Out::Panic(p) if !calls.is_empty() => fail("callback-on-error-path", format!("callback invoked before a panic: {}", p)),
+                _ => pass(format!("Beyond|{}|{}", if c.accept { "accept" } else { "reject" }, c.hash.name()), true),
+            };
         }
         KeyState::OtherHashLength(k) => {
             let other = [16usize, 24, 32].into_iter().filter(|x| *x != n).nth(*k as usize % 2).unwrap();
@@ -215,6 +234,9 @@ pub fn run(ctx: &Ctx) {
             }
             for k in 0..2 {
                 states.push(KeyState::OtherHashLength(k));
+            }
+            for extra in [0u64, 1, 5, 1 << 32, u64::MAX] {
+                states.push(KeyState::Beyond(extra));
             }
             for st in &states {
                 for accept in [true, false] {
